@@ -1018,6 +1018,17 @@ func (e *SpecEnv) call(x *ECall) TV {
 			}
 		}
 		efail("objkey needs a pointer or an interface value")
+	case "allocated":
+		// allocated(x): the reference exists now (it is not above the current allocation watermark)
+		v := e.eval(x.Args[0])
+		v = e.locTerm(v)
+		ref := v.T
+		if v.Sort == "Slice" {
+			ref = fmt.Sprintf("(s.base %s)", v.T)
+		} else if v.Sort == "Iface" {
+			ref = fmt.Sprintf("(i.val %s)", v.T)
+		}
+		return specTV(fmt.Sprintf("(<= %s %s)", ref, e.S.WM), "Bool")
 	case "freshkey":
 		// freshkey(k): the object identified by objkey value k did not exist at function entry (for the address of an
 		// embedded field: the enclosing object did not)
